@@ -153,6 +153,17 @@ theorem stage5_run_frozen (app : R → M → M) (s : St M R) (es : List (Evt R))
     rw [hrun, h1]
     exact ih (fun e' he' => hes e' (by simp [he']))
 
+/-- **nothing attempted after the final savepoint is in the image** (`_partial` as above, F25): whatever the other
+    threads try between the final savepoint and the end of the backup (`es'`, any events), the finished image
+    still opens to the initial contents plus exactly the writes that took effect before the final savepoint. -/
+theorem image_instant_partial (app : R → M → M) (s0 : St M R) (hfresh : Fresh s0)
+    (es es' : List (Evt R)) (hnc : (run app s0 es).crashed = false) (h5 : (run app s0 es).stage = 5)
+    (hes' : ∀ e ∈ es', e ≠ .bkpFinish) :
+    ∃ im, (step app (run app s0 (es ++ es')) .bkpFinish).img = some im ∧
+      recoverImage app im = replay app (writesDone app s0 es) s0.mem := by
+  rw [run_append, stage5_run_frozen app _ es' h5 hes']
+  exact image_is_prefix_of_history_partial app s0 hfresh es hnc h5
+
 /-- a crashed store does nothing (F25 is terminal in the model: no later event hides it) -/
 theorem crashed_step_frozen (app : R → M → M) (s : St M R) (e : Evt R) (hc : s.crashed = true) :
     step app s e = s := by
